@@ -100,12 +100,15 @@ func runConcurrently(jobs []job) (got []string, finished bool) {
 // other for the reference results, then concurrently again rounds-1 times; it reports the first
 // goroutine whose result differs from the same work done alone.  seqHang: the work did not
 // even finish alone (nothing to compare; not a matter of this property).
-func runBoth(jobs []job, rounds int) (want []string, diff string, overlapped, seqHang bool) {
+func runBoth(jobs, ref []job, rounds int) (want []string, diff string, overlapped, seqHang bool) {
 	first, finished := runConcurrently(jobs)
 	want = make([]string, len(jobs))
+	if ref == nil {
+		ref = jobs
+	}
 	seqDone := make(chan struct{})
 	go func() {
-		for i, j := range jobs {
+		for i, j := range ref {
 			want[i] = guarded(j)
 		}
 		close(seqDone)
@@ -226,6 +229,334 @@ func drain(sb *strings.Builder, next func() bool, value func() []int) {
 }
 
 func scenario(name string, r *hx.Rng, G int) (jobs []job, extra func(results []string) string) {
+	jobs, _, extra, _ = scenarioFull(name, r, G)
+	return
+}
+
+// ---------------------------------------------------------------- values built from the same input slices
+
+// inputs are the caller's slices handed to constructors.  Two values built from the same slices
+// are still separate values: they must behave as if each had a private copy, and the slices
+// must be bit-identical afterwards.
+type inputs struct {
+	I  [][]int
+	B  [][]byte
+	W  [][]byte
+	NB []sortints.SortedInts
+	n  int
+	g0 *graph.DenseGraph // shared, only read
+	s0 *graph.SparseGraph
+}
+
+func (in *inputs) clone() *inputs {
+	c := &inputs{n: in.n, g0: in.g0, s0: in.s0}
+	for _, x := range in.I {
+		c.I = append(c.I, append([]int{}, x...))
+	}
+	for _, x := range in.B {
+		c.B = append(c.B, append([]byte{}, x...))
+	}
+	for _, x := range in.W {
+		c.W = append(c.W, append([]byte{}, x...))
+	}
+	for _, x := range in.NB {
+		c.NB = append(c.NB, append(sortints.SortedInts{}, x...))
+	}
+	return c
+}
+
+func (in *inputs) diff(m *inputs) string {
+	a, b := fmt.Sprint(in.I, in.B, in.W, in.NB), fmt.Sprint(m.I, m.B, m.W, m.NB)
+	if a != b {
+		return fmt.Sprintf("the caller's input slices were modified: now %.300s, were %.300s", a, b)
+	}
+	return ""
+}
+
+func newInputs(r *hx.Rng) *inputs {
+	in := &inputs{n: r.Range(4, 7)}
+	n := in.n
+	in.g0 = randomGraph(r, n, 2, 5)
+	in.s0 = toSparse(in.g0)
+	perm := r.Perm(n)
+	cut := r.Range(1, n-1)
+	sortedSub := append([]int{}, r.Perm(12)[:r.Range(1, 6)]...)
+	sort.Ints(sortedSub)
+	comb3 := append([]int{}, r.Perm(9)[:3]...)
+	sort.Ints(comb3)
+	colouring := randInts(r, n, 3)
+	maxima := randInts(r, r.Range(3, 5), 4)
+	for i := range maxima {
+		maxima[i]++ // 1..4: larger than small k, so that a constructor capping them in place shows
+	}
+	dims := randInts(r, r.Range(2, 4), 3)
+	for i := range dims {
+		dims[i]++
+	}
+	in.I = [][]int{
+		maxima,                                   // 0 MultisetCombinations
+		{r.Range(1, 2), r.Range(0, 2), 1},        // 1 MultisetPermutations
+		dims,                                     // 2 Product, RestrictedPrefixProduct, CompletePartiteGraph
+		append([]int{}, perm[:r.Range(1, n)]...), // 3 InducedSubgraph
+		append([]int{}, perm[:cut]...),           // 4 vertex class
+		append([]int{}, perm[cut:]...),           // 5 vertex class
+		randInts(r, r.Range(1, 8), 12),           // 6 NewSortedInts / Add
+		sortedSub,                                // 7 a SortedInts argument
+		r.Perm(n),                                // 8 GreedyColor order
+		randInts(r, n-2, n),                      // 9 Prufer code
+		comb3,                                    // 10 comb.Rank
+		{1, r.Range(2, 3)},                       // 11 CirculantGraph differences
+		colouring,                                // 12 IsProperColouring
+	}
+	edges := make([]byte, n*(n-1)/2)
+	for i := range edges {
+		if r.Chance(2, 5) {
+			edges[i] = 1
+		}
+	}
+	in.B = [][]byte{[]byte("a.b..")[:r.Range(1, 5)], []byte("aabbc..")[:r.Range(1, 7)], edges, graph.MulticodeEncode(in.g0)}
+	in.W = words(r, r.Range(3, 40), r.Range(2, 3), 5)
+	for i := 0; i < n; i++ {
+		in.NB = append(in.NB, sortints.NewSortedInts(in.g0.Neighbours(i)...))
+	}
+	return in
+}
+
+const sharedKinds = 11
+
+// build constructs one value of the given kind from the input slices and returns a function
+// that yields its observations piece by piece (so that two values can be interleaved).
+func build(kind int, in *inputs, v int) func() (string, bool) {
+	n := in.n
+	steps := func(fs ...func() string) func() (string, bool) {
+		i := 0
+		return func() (string, bool) {
+			if i >= len(fs) {
+				return "", false
+			}
+			i++
+			return fs[i-1](), true
+		}
+	}
+	switch kind {
+	case 0:
+		it := itertools.MultisetCombinations(in.I[0], 1+v%3)
+		return func() (string, bool) {
+			if it.Next() {
+				return fmt.Sprint(it.Value(), it.FreqValue()), true
+			}
+			return "", false
+		}
+	case 1:
+		it := itertools.MultisetPermutations(in.I[1])
+		return func() (string, bool) {
+			if it.Next() {
+				return fmt.Sprint(it.Value()), true
+			}
+			return "", false
+		}
+	case 2:
+		it := itertools.Product(in.I[2]...)
+		return func() (string, bool) {
+			if it.Next() {
+				return fmt.Sprint(it.Value()), true
+			}
+			return "", false
+		}
+	case 3:
+		it := itertools.RestrictedPrefixProduct(func(p []int) bool { return len(p) < 2 || p[len(p)-1] != (p[len(p)-2]+v)%3 }, in.I[2]...)
+		return func() (string, bool) {
+			if it.Next() {
+				return fmt.Sprint(it.Value()), true
+			}
+			return "", false
+		}
+	case 4:
+		var d *dawg.Dawg
+		return steps(
+			func() string {
+				var err error
+				d, err = dawg.New(in.W)
+				if err != nil {
+					panic(err)
+				}
+				return fmt.Sprint(d.NumberOfWords())
+			},
+			func() string {
+				var sb strings.Builder
+				for _, w := range in.W {
+					i, ok := d.Lookup(w)
+					fmt.Fprint(&sb, i, ok)
+				}
+				return sb.String()
+			},
+			func() string { return fmt.Sprint(d.Search(dawg.NewPatternSearcher(in.B[0], '.'))) },
+			func() string { return fmt.Sprint(d.Search(dawg.NewAnagramSearcher(in.B[1], '.'))) },
+		)
+	case 5:
+		var g *graph.SparseGraph
+		return steps(
+			func() string { g = graph.NewSparse(n, in.NB); return observe(g) },
+			func() string {
+				for i := 0; i < n; i++ {
+					j := (i + 1 + v) % n
+					if i != j && !g.IsEdge(i, j) {
+						g.AddEdge(i, j)
+						break
+					}
+				}
+				return observe(g)
+			},
+			func() string { g.RemoveVertex(v % n); g.AddVertex([]int{0}); return observe(g) },
+		)
+	case 6:
+		var g *graph.DenseGraph
+		return steps(
+			func() string { g = graph.NewDense(n, in.B[2]); return observe(g) },
+			func() string {
+				i, j := v%n, (v+1)%n
+				if g.IsEdge(i, j) {
+					g.RemoveEdge(i, j)
+				} else {
+					g.AddEdge(i, j)
+				}
+				return observe(g)
+			},
+			func() string { g.RemoveVertex(v % n); g.AddVertex([]int{0}); return observe(g) },
+		)
+	case 7:
+		return steps(
+			func() string { return observe(graph.InducedSubgraph(in.g0, in.I[3])) },
+			func() string {
+				return observe(in.g0.InducedSubgraph(in.I[3])) + observe(in.s0.InducedSubgraph(in.I[3]))
+			},
+			func() string { return observe(graph.Complement(graph.InducedSubgraph(in.s0, in.I[3]))) },
+		)
+	case 8:
+		classes := func() [][]int { return [][]int{in.I[4], in.I[5]} }
+		return steps(
+			func() string {
+				p, orb, gens := graph.CanonicalIsomorphFull(in.g0, classes())
+				return fmt.Sprint(p, orb.SmallestRep(), gens)
+			},
+			func() string {
+				m := in.g0.M()
+				op := graph.NewOrderedPartition(n, m, classes())
+				nb := make([][]int, n)
+				for i := range nb {
+					nb[i] = in.g0.Neighbours(i)
+				}
+				p, orb, gens := graph.CanonicalIsomorphAllocated(n, m, nb, op, graph.NewStorage(n, m), new(graph.CanonicalOptions))
+				s := fmt.Sprint(p, orb.SmallestRep(), gens)
+				op.Reset(n, m, classes())
+				return s
+			},
+		)
+	case 9:
+		var s sortints.SortedInts
+		return steps(
+			func() string { s = sortints.NewSortedInts(in.I[6]...); return fmt.Sprint(s) },
+			func() string {
+				s.Add(in.I[6]...)
+				s.Add(v)
+				s.Union(sortints.SortedInts(in.I[7]))
+				return fmt.Sprint(s)
+			},
+			func() string {
+				t := sortints.SortedInts(in.I[7])
+				return fmt.Sprint(sortints.Union(t, s), sortints.SetMinus(s, t), sortints.Intersection(t, s), sortints.XOR(s, t), sortints.Complement(13, t))
+			},
+		)
+	default:
+		return steps(
+			func() string {
+				c, col := graph.GreedyColor(in.g0, in.I[8])
+				return fmt.Sprint(c, col, graph.IsProperColouring(in.g0, in.I[12]))
+			},
+			func() string {
+				return graph.Graph6Encode(graph.PruferDecode(in.I[9])) + graph.Graph6Encode(graph.MulticodeDecode(in.B[3])) + fmt.Sprint(comb.Rank(in.I[10]))
+			},
+			func() string {
+				return graph.Graph6Encode(graph.CirculantGraph(7+v%2, in.I[11]...)) + graph.Graph6Encode(graph.CompletePartiteGraph(in.I[2]...)) +
+					fmt.Sprint(ints.Max(in.I[6]), ints.Sum(in.I[6]), ints.Equal(in.I[6], in.I[7]), ints.Compare(in.I[6], in.I[7]))
+			},
+		)
+	}
+}
+
+func drainMachine(sb *strings.Builder, m func() (string, bool), limit int) {
+	for c := 0; limit < 0 || c < limit; c++ {
+		s, ok := m()
+		if !ok {
+			return
+		}
+		sb.WriteString(s)
+		sb.WriteByte(';')
+	}
+}
+
+func sharedInputScenario(name string, r *hx.Rng, G int) (jobs, ref []job, post func() string) {
+	kind := 0
+	if i := strings.IndexByte(name, ':'); i >= 0 {
+		kind, _ = strconv.Atoi(name[i+1:])
+	}
+	kind %= sharedKinds
+	if strings.HasPrefix(name, "shared-input-handoff") {
+		// every goroutine owns its inputs; it builds A, advances it a few steps, builds B from
+		// the same slices and uses it up, then continues A.  Alone: A and B on private copies.
+		var live, masters []*inputs
+		for k := 0; k < G; k++ {
+			in := newInputs(r)
+			live, masters = append(live, in), append(masters, in.clone())
+			m := masters[k]
+			va, vb, stop := r.Intn(6), r.Intn(6), r.Range(1, 3)
+			run := func(forA, forB func() *inputs) string {
+				var sa, sbb strings.Builder
+				a := build(kind, forA(), va)
+				drainMachine(&sa, a, stop)
+				b := build(kind, forB(), vb)
+				drainMachine(&sbb, b, -1)
+				drainMachine(&sa, a, -1)
+				return sa.String() + " | " + sbb.String()
+			}
+			jobs = append(jobs, func() string { return run(func() *inputs { return in }, func() *inputs { return in }) })
+			ref = append(ref, func() string { return run(m.clone, m.clone) })
+		}
+		post = func() string {
+			for k := range live {
+				if d := live[k].diff(masters[k]); d != "" {
+					return d
+				}
+			}
+			return ""
+		}
+		return
+	}
+	// all goroutines build their value from the same slices and use it concurrently
+	in := newInputs(r)
+	master := in.clone()
+	for k := 0; k < G; k++ {
+		v := k
+		run := func(src func() *inputs) string {
+			var sb strings.Builder
+			drainMachine(&sb, build(kind, src(), v), -1)
+			return sb.String()
+		}
+		jobs = append(jobs, func() string { return run(func() *inputs { return in }) })
+		ref = append(ref, func() string { return run(master.clone) })
+	}
+	post = func() string { return in.diff(master) }
+	return
+}
+
+// scenarioFull: jobs run concurrently; ref (if not nil) is the same work done alone on private
+// copies of the inputs (otherwise the jobs themselves, run one after the other, are the
+// reference); post (if not nil) is checked after all phases.
+func scenarioFull(name string, r *hx.Rng, G int) (jobs, ref []job, extra func(results []string) string, post func() string) {
+	if strings.HasPrefix(name, "shared-input") {
+		jobs, ref, post = sharedInputScenario(name, r, G)
+		return
+	}
 	switch name {
 	case "shards": // the m shards of a split search, in parallel
 		n := r.Range(4, 6)
@@ -742,9 +1073,9 @@ func exec1(line string) hx.Result {
 	rounds, _ := strconv.Atoi(f[3])
 	r := hx.NewRng(seed)
 	atomic.StoreInt32(&maxActive, 0)
-	jobs, extra := scenario(f[0], r, G)
-	want, diff, overlapped, seqHang := runBoth(jobs, rounds)
-	res := hx.Result{Obs: "ok", Nontrivial: overlapped && len(jobs) >= 2, Buckets: []string{"scenario:" + f[0], "goroutines=" + f[2]}}
+	jobs, ref, extra, post := scenarioFull(f[0], r, G)
+	want, diff, overlapped, seqHang := runBoth(jobs, ref, rounds)
+	res := hx.Result{Obs: "ok", Nontrivial: overlapped && len(jobs) >= 2, Buckets: []string{"scenario:" + strings.SplitN(f[0], ":", 2)[0], "goroutines=" + f[2]}}
 	if seqHang {
 		res.Nontrivial = false
 		res.Buckets = append(res.Buckets, "outcome:not-finished-even-alone")
@@ -752,6 +1083,9 @@ func exec1(line string) hx.Result {
 	}
 	if diff == "" && extra != nil {
 		diff = extra(want)
+	}
+	if diff == "" && post != nil {
+		diff = post()
 	}
 	if diff != "" {
 		res.Obs = "diff"
@@ -812,6 +1146,15 @@ func gen(g *hx.Gen) {
 				G = []int{2, 3, 4, 5, 7}[g.Rng.Intn(5)]
 			}
 			g.Emit(fmt.Sprintf("%s;%d;%d;%d", s, g.Rng.U64()%1000000, G, g.Pick(2, 4)))
+		}
+	}
+	// values built from the same caller slices: every kind of constructor in every run
+	for _, s := range []string{"shared-input", "shared-input-handoff"} {
+		for kind := 0; kind < sharedKinds; kind++ {
+			for i := 0; i < g.Pick(1, 10); i++ {
+				G := []int{2, 3, 4, 8}[g.Rng.Intn(4)]
+				g.Emit(fmt.Sprintf("%s:%d;%d;%d;%d", s, kind, g.Rng.U64()%1000000, G, g.Pick(2, 4)))
+			}
 		}
 	}
 	if g.Thorough() && os.Getenv("VERIF_REPO") == "" && os.Getenv("C19_NO_SELFTEST") == "" {
